@@ -378,7 +378,14 @@ META = {
             "and A X = I, det = sign*prod u_ii with lndet/sgndet agreeing; zero column / duplicated rows / vanishing pivot => "
             "failure; the analogous LDL^T (A = L D L^T, singular => failure) and Cholesky (A = L L^T, l_ii > 0, non-positive or "
             "small pivot => failure) families. PARTIAL (named _partial): residuals are exactly 0 over R; the floating-point "
-            "componentwise rounding bounds are measured by an exact-rational oracle on the C output, not proved. Tie: the same "
+            "componentwise rounding bounds are measured by an exact-rational oracle on the C output, not proved. PROVED in the "
+            "rounding model (same term at a NumOps whose add/sub/mul/div round with any rnd obeying |rnd x - x| <= eps|x| + eta, "
+            "binary64 RNE with eps = 2^-53, eta = 2^-1075 by Flocq, overflow excluded), for every n with n*eps < 1, for the "
+            "TRIANGULAR SOLVES ONLY (plu/ldl/llt lower and upper and their composition in plu/ldl/llt_solve on GIVEN factors): "
+            "Higham Thm 8.5, componentwise residual |b - T x^|_r <= gamma_k (|T||x^|)_r + (3k + |t_rr|)(1 + gamma_k) eta with "
+            "k <= n (k = r, n-r or r+1 by routine; gamma_k = k eps/(1 - k eps)), equivalently (T + dT) x^ = b + db exactly with "
+            "|dT| <= gamma_k |T|, |db| = O(n) eta; the factorisations' own backward error (|PA - LU| <= gamma_n |L||U| etc., "
+            "hence solve/inverse against the ORIGINAL A) stays measured, not proved. Tie: the same "
             "polymorphic term at PrimFloat (vm_compute) vs the C bit for bit on all 34 routines incl. lndet (libm log logged "
             "via --wrap and supplied to the model).",
     "note": "Trusted: Coq kernel/vm_compute with primitive floats and ints; real-number axioms listed by Print Assumptions; "
